@@ -246,6 +246,10 @@ class World:
         r = rng.random()
         if r < 0.04:
             return ''
+        if r < 0.046:
+            # a long string (a clipboard offer, a title): the whole line crosses the usual buffer sizes
+            n = rng.choice([4000, 4060, 4090, 4096, 5000, 8192, 20000])
+            return ''.join(rng.choice(STRING_ALPHABET) for _ in range(8)) * (n // 8)
         n = rng.choice([1, 2, 3, 5, 8, 13, 30]) if rng.random() < 0.8 else rng.randint(1, 80)
         s = ''.join(rng.choice(STRING_ALPHABET) for _ in range(n))
         if rng.random() < 0.15:
@@ -589,10 +593,17 @@ CHATTER_TEMPLATES = [
 ]
 
 
+LONG_CHATTER = [4095, 4096, 4097, 8191, 8192, 8193, 12288, 65536, 70001, 1023, 1024, 1025]
+
+
 def chatter_text(k, r):
     t = CHATTER_TEMPLATES[k % len(CHATTER_TEMPLATES)]
     if r % 3 == 0 and t.strip():
         t = t + ' ' + str(r % 1000)
+    if r % 41 == 5:
+        # a very long line of program output, at and around the usual buffer sizes
+        n = LONG_CHATTER[(r // 41) % len(LONG_CHATTER)]
+        t = (t.rstrip() + ' ' + 'lorem ipsum ' * (n // 12 + 1))[:n - 1] + '.'
     return t
 
 
